@@ -90,6 +90,10 @@ def main(argv=None):
         if a.only: jobs = [j for j in jobs if a.only in j.name]
         results = H.run_jobs(ctx.mirs, jobs, tier, seed, a.jobs)
         post = prop.post_check(ctx, results) if hasattr(prop, 'post_check') else None
+        if post and post.get('violations'):
+            # findings produced outside the job pool (e.g. natively executed exhaustive parts): triaged like all others
+            results.append({'job': 'post-check', 'profile': 'dev', 'status': 'ok', 'error': None, 'stats': {}, 'wall_s': 0, 'finding_counts': {}, 'samples': [], 'fns': {}, 'models': {},
+                            'findings': [dict(kind='violation', role=v['role'], detail=v['detail'], cex=v.get('cex'), notes=[], native_found=True) for v in post['violations']]})
         # ---- triage
         known = load_known()
         inconclusive = [r for r in results if r['status'] != 'ok']
